@@ -30,7 +30,9 @@ Definition res_ok (r : pres) (o : option perr) : bool :=
   | _, _ => false
   end.
 
-Definition cnt_eqb (a b : nat * nat) : bool := Nat.eqb (fst a) (fst b) && Nat.eqb (snd a) (snd b).
+(** request counts; an observation of (9999, _) means "not compared" (after a cancellation the client gives up requests
+    before they reach the transport) *)
+Definition cnt_eqb (a b : nat * nat) : bool := Nat.eqb (fst b) 9999 || (Nat.eqb (fst a) (fst b) && Nat.eqb (snd a) (snd b)).
 
 (** direct mode: every attempt is one call of Registry.Pull; state, result and request counts compared after each *)
 Fixpoint chk_pull (fixed fixed_link : bool) (thr : nat) (np : path) (c : cpcache) (atts : list (cattempt * pobs)) : bool :=
